@@ -18,7 +18,7 @@ RULE = (
     "Enumerated: every code sequence over {-1,0,1,2} x every value sequence over a per-dtype alphabet containing "
     "null, of length <= 3 (quick) / <= 4 (thorough), x every split (n_threads 1..4; every composition of the rows "
     "into 1..4 consecutive Arrow chunks incl. empty chunks) x 9 kernels x {float,int,bool,datetime}; masks "
-    "(all boolean masks, slices with bounds in {None,-L-1,-L,-1,0,1,L,L+1}, positional sequences with repeats) enumerated for "
+    "(all boolean masks, slices with bounds in {None,-L-1,-L,-1,0,1,L,L+1} and steps in {1,-1,2,-2}, positional sequences with repeats) enumerated for "
     "length <= 2 (quick) / <= 3 (thorough) and strided above; lengths 5-6 over codes x null pattern with 3 "
     "canonical value assignments (thorough); Hypothesis samples lengths <= 16 with <= 6 groups and any numeric "
     "dtype.  One evaluation = one kernel call compared with the model.  Non-trivial = the call splits the rows "
@@ -90,7 +90,7 @@ def mask_obj(mask):
     if mask["kind"] == "bool":
         return np.array(mask["vals"], dtype=bool)
     if mask["kind"] == "slice":
-        return slice(mask.get("start"), mask.get("stop"))
+        return slice(mask.get("start"), mask.get("stop"), mask.get("step"))
     return np.array(mask["vals"], dtype=np.int64)
 
 
@@ -262,6 +262,11 @@ def masks_for(n, full=True):
     for a in bounds:
         for b in bounds:
             out.append({"kind": "slice", "start": a, "stop": b})
+    # stepped and reversed slices (a negative step selects rows in reverse order: first/last swap roles)
+    for step in (-1, 2, -2):
+        for a in (None, 0, 1, -1, n - 1, n):
+            for b in (None, 0, -1, n, -n - 1):
+                out.append({"kind": "slice", "start": a, "stop": b, "step": step})
     for ln in range(0, 3 if full else 2):
         for seq in itertools.product(range(n), repeat=ln):
             out.append({"kind": "pos", "vals": list(seq)})
@@ -451,6 +456,9 @@ def sampled_case(draw, variant):
     elif mk == "slice":
         b = st.one_of(st.none(), st.integers(-n - 2, n + 2))
         mask = {"kind": "slice", "start": draw(b), "stop": draw(b)}
+        step = draw(st.sampled_from([None, None, -1, 2, -2, 3, -3]))
+        if step is not None:
+            mask["step"] = step
     else:
         mask = {"kind": "pos", "vals": draw(st.lists(st.integers(-n, n - 1), max_size=8)) if n else []}
     if dtype != "bool" and draw(st.booleans()) and not (dtype in ("float32",) and False):
@@ -486,4 +494,8 @@ SUBS = [
     Sub("sampled", check_sampled, strategy=lambda tier, variant: sampled_case(variant),
         variants=("f", "i1", "i2", "t"), examples=(1200, 30000), replicas=(2, 6),
         cost={"f": 95, "i1": 90, "i2": 90, "t": 70}),
+    # the same sampled cases in a dedicated worker that compiles the kernels with bounds checking (sanitizer analogue:
+    # an index past the end of a partial result / counter array raises instead of reading whatever lies behind it)
+    Sub("sampled_boundscheck", check_sampled, strategy=lambda tier, variant: sampled_case(variant),
+        variants=("f", "i1"), examples=(500, 8000), replicas=(1, 1), cost={"f": 120, "i1": 120}, env={"NUMBA_BOUNDSCHECK": "1", "NUMBA_CACHE_DIR_SUFFIX": "bc"}),
 ]
